@@ -674,7 +674,14 @@ func replay(raw stdjson.RawMessage) (bool, string) {
 // ForEachSchema enumerates type graphs (nothing missing) whose types are all
 // inhabited: n=1 rich, n=2 two-slot alphabets, plus the ring families with an
 // optional / array / terminating edge.
-func ForEachSchema(f func(sc.Case)) {
+func ForEachSchema(f func(sc.Case)) { forEachSchema(false, f) }
+
+// ForEachSchemaDeep additionally gives the two-type graphs two-property
+// object bodies (every pair of slots), so that a type can recurse both
+// directly and through the other type.
+func ForEachSchemaDeep(f func(sc.Case)) { forEachSchema(true, f) }
+
+func forEachSchema(deep bool, f func(sc.Case)) {
 	emit := func(cs caseT) {
 		if cs.Missing != 0 {
 			return
@@ -688,7 +695,7 @@ func ForEachSchema(f func(sc.Case)) {
 	}
 	for _, n := range []int{1, 2} {
 		names := []string{"@t0", "@t1"}[:n]
-		bs := bodies(names, n == 1, n == 1)
+		bs := bodies(names, n == 1 || deep, n == 1)
 		idx := make([]int, n)
 		var rec func(i int)
 		rec = func(i int) {
